@@ -3,7 +3,7 @@ S (Spec/RobustSpec.v) against what the real readers did on the inputs of this ru
 
 Case files coq/Gen/Cases_C18_<kind>_<k>.v, one kind per file, each ending in `Eval vm_compute in check_all (map <f> cs)`:
   srt / vtt      (content, oracle, outcome code, attachment flags)     model line machine = reader (+ observed cue-parser results)
-  srtcur/vttcur  (attached, events, outcome code)                       model cursor = _TextParser / _TextCueParser on the observed callbacks
+  srtcur/vttcur  (attached, (event, tag name number)s, outcome code)    model cursor = _TextParser / _TextCueParser on the observed callbacks
   srtview/vttview (line, flags)                                         line classifiers = the readers' own regular expressions
   scc / sccline / sccword                                               SccLine.from_str, SccWord.from_str, reader loop
   stl            (start cfg, rows cfg, RLE bytes, oracle, outcome code) DataFile.__init__ / process_tti_block / reader loop
@@ -15,7 +15,7 @@ import common as C
 import c18run as R
 
 TARGETS = ["Gen/GuardTables.vo", "Model/Outcome.vo", "Model/ReaderGuards.vo", "Spec/RobustSpec.vo", "Model/GuardCases.vo",
-           "Proofs/C18/SpecLink.vo", "Proofs/C18/Srt.vo", "Proofs/C18/Vtt.vo", "Proofs/C18/Scc.vo", "Proofs/C18/Stl.vo"]
+           "Proofs/C18/SpecLink.vo", "Proofs/C18/Srt.vo", "Proofs/C18/Vtt.vo", "Proofs/C18/Scc.vo", "Proofs/C18/Stl.vo", "Proofs/C18/Statements.vo"]
 
 M_CODE = {"ok": 0, "XmlParseError": 10, "ValueError": 11, "StructError": 12, "UnicodeDecodeError": 13, "AttributeError": 20, "TypeError": 21,
           "IndexError": 22, "KeyError": 23, "UnboundLocalError": 24, "AssertionError": 25, "RecursionError": 26, "ZeroDivisionError": 27,
@@ -41,7 +41,7 @@ def build_and_prove(run, thorough):
     if rc == 0: run.cov["discharged"] += 1
     else:
         run.proof_log = "Findings/C18.v (refutation witnesses) no longer compiles: " + out[-1500:]; ok = False
-    run.cov["findings_file"] = "coq/Findings/C18.v compiled: witnesses of 9 refuted statements (and the 4 repaired ones now passing) decided by vm_compute" if rc == 0 else "coq/Findings/C18.v FAILED"
+    run.cov["findings_file"] = "coq/Findings/C18.v compiled: witnesses of the refuted statement that is left (vtt-ruby-structure, 5 shapes), of SccWord.from_str alone and of the pre-76afcc4 SRT variant; the witnesses of the 16 repaired guard defects now pass in the model; all decided by vm_compute" if rc == 0 else "coq/Findings/C18.v FAILED"
     return ok
 
 
@@ -78,12 +78,14 @@ def srt_events(ev):
 def pairs(xs): return "[" + ";".join(f"({a},{b})" for a, b in xs) + "]"
 
 def vtt_events(ev):
-    out = []
-    for k, a in ev:
-        if k == "S": out.append(VTT_EV[a])
-        elif k == "T": out.append(3)
-        elif k == "E": out.append(4)
-        elif k == "D": out.append(10 + int(a))
+    """(event code, number of the tag name within the cue)"""
+    out = []; names = {}
+    for k, a, *t in ev:
+        n = names.setdefault(t[0], len(names)) if t else 0
+        if k == "S": out.append((VTT_EV[a], n))
+        elif k == "T": out.append((3, 0))
+        elif k == "E": out.append((4, n))
+        elif k == "D": out.append((10 + int(a), 0))
         else: return None
     return out
 
@@ -144,14 +146,14 @@ def correspondence(run, tasks, results, spec_rows, thorough):
     sh = {
         "srt": Shards("srt", "text * list Z * Z * list Z", ["srt_case"]),
         "vtt": Shards("vtt", "text * list Z * Z * list Z", ["vtt_case"]),
-        "srtcur": Shards("srtcur", "Z * list (Z * Z) * Z", ["srt_cursor_case", "srt_cursor_trigger_case"]),
-        "vttcur": Shards("vttcur", "Z * list Z * Z", ["vtt_cursor_case", "vtt_cursor_trigger_case"]),
+        "srtcur": Shards("srtcur", "Z * list (Z * Z) * Z", ["srt_cursor_case", "srt_cursor_total_case"]),
+        "vttcur": Shards("vttcur", "Z * list (Z * Z) * Z", ["vtt_cursor_case", "vtt_cursor_trigger_case"]),
         "srtview": Shards("srtview", "text * list Z", ["srt_view_case"]),
         "vttview": Shards("vttview", "text * list Z", ["vtt_view_case"]),
         "scc": Shards("scc", "text * list Z * Z", ["scc_case"]),
         "sccline": Shards("sccline", "text * Z", ["scc_line_case"]),
         "sccword": Shards("sccword", "text * Z", ["scc_word_case"]),
-        "stl": Shards("stl", "list Z * list Z * list (Z * Z) * list Z * Z", ["stl_case", "stl_trigger_case"]),
+        "stl": Shards("stl", "list Z * list Z * list (Z * Z) * list Z * Z", ["stl_case", "stl_total_case"]),
         "bint": Shards("bint", "list Z * Z", ["bytes_int_case"]),
         "int16": Shards("int16", "text * Z", ["int16_case"]),
         "spec": Shards("spec", "Z * list Z * Z", ["spec_case", "spec_strict_case"]),
@@ -166,16 +168,7 @@ def correspondence(run, tasks, results, spec_rows, thorough):
     def vtt_flags(line):
         ps = line.split()
         cue = len(ps) >= 3 and vr.vtt_timestamp_to_secs(ps[0]) is not None and vr.vtt_timestamp_to_secs(ps[2]) is not None
-        ovf = 0
-        if len(ps) >= 3:
-            st = dict(filter(lambda x: len(x) == 2, [x.split(":") for x in ps[3:]]))
-            for key, comma in (("size", False), ("line", True), ("position", True)):
-                v = st.get(key)
-                if v is None: continue
-                v = v.split(",")[0] if comma else v
-                try: vr.parse_vtt_pct(v)
-                except OverflowError: ovf = 1
-        return [int(bool(vr._EMPTY_RE.fullmatch(line))), int(line.startswith("NOTE ")), int(line.startswith("STYLE")), int("-->" in line), int(cue), ovf]
+        return [int(bool(vr._EMPTY_RE.fullmatch(line))), int(line.startswith("NOTE ")), int(line.startswith("STYLE")), int("-->" in line), int(cue)]
 
     # ---- S on the observed runs: every failing run; all passing ones in the quick tier, a 10 % sample in the thorough tier
     for (i, rc, down, ok) in spec_rows:
@@ -219,7 +212,7 @@ def correspondence(run, tasks, results, spec_rows, thorough):
                 key = (fmt, rec["attached"], tuple(ev), rec["end"])
                 if key in seen_cur: continue
                 seen_cur.add(key)
-                sh[fmt + "cur"].add(f"({int(rec['attached'])}, {pairs(ev) if fmt == 'srt' else zl(ev)}, {M_CODE[rec['end']]})", key)
+                sh[fmt + "cur"].add(f"({int(rec['attached'])}, {pairs(ev)}, {M_CODE[rec['end']]})", key)
         elif fmt == "scc":
             tr = r["trace"] or []
             if any(rec["end"] not in M_CODE for rec in tr): skipped["scc:unmodelled-exception"] += 1; continue
